@@ -79,7 +79,7 @@ func Load(repo string, overlay map[string]string, patterns []string) (*Program, 
 		}
 	}
 	for _, s := range []string{modPath + "/src/algo", modPath + "/src/util", modPath + "/src", modPath + "/src/zzv",
-		"unicode", "unicode/utf8", "strings", "bytes", "strconv", "sort", "math", "math/bits", "unicode/utf16",
+		"unicode", "unicode/utf8", "strings", "bytes", "strconv", "sort", "math", "math/bits", "unicode/utf16", "io", "errors", "io/fs",
 		"internal/stringslite", "slices", "cmp", "crypto/subtle"} {
 		P.initPkgs[s] = true
 	}
@@ -106,7 +106,7 @@ func (P *Program) initOKPkg(path string) bool {
 	switch path {
 	case modPath + "/src/algo", modPath + "/src/util", modPath + "/src", modPath + "/src/zzv", modPath + "/src/tui",
 		"unicode", "unicode/utf8", "strings", "bytes", "errors", "sort", "math", "math/bits", "strconv", "slices", "cmp",
-		"internal/stringslite", "internal/bytealg", "unicode/utf16", "internal/itoa":
+		"internal/stringslite", "internal/bytealg", "unicode/utf16", "internal/itoa", "io", "io/fs", "internal/oserror":
 		return true
 	}
 	return false
